@@ -34,7 +34,7 @@ CHECKS = {
  "C17": dict(
    engine="E2-sandbox-io",
    level=("exploration",
-     "Seeded histories of 3-12 writer/CLI operations in one tmpfs sandbox (each history in a forked process; a file written by operation k is an existing target for operation k+1) plus a seeded walk over the whole configuration matrix (11 sinks x exists x answer class x warnings x str/Path). A PEP 578 audit hook records every open/rename/remove/truncate of any library in one ordered log with the prompts and the 'exists, overwrite?' records; the user peer answers y/n/empty/Y/yes/'y '/' y'/text/EOF/Ctrl-C or runs out of answers; ENOSPC/EACCES is injected into confirmed writes; 15% of the histories run with CAP_DAC_OVERRIDE dropped (an ordinary user, write-protected targets); targets may be empty, symlinks, behind a symlinked directory, or arrive with the directory times restored. Oracle per pre-existing file: no mutating event before a 'y' attributed to it (bytes and inode unchanged otherwise), replaced by a valid output when confirmed or warnings disabled, no prompt when disabled, no unexpected new file. Sampling, not proof.",
+     "Seeded histories of 3-12 writer/CLI operations in one tmpfs sandbox (each history in a forked process; a file written by operation k is an existing target for operation k+1) plus a seeded walk over the whole configuration matrix (12 sinks incl. evo_fig, whose closing 'overwrite original file?' question is the only confirmation for rewriting its input, x exists x answer class x warnings x str/Path). A PEP 578 audit hook records every open/rename/remove/truncate of any library in one ordered log with the prompts and the 'exists, overwrite?' records; the user peer answers y/n/empty/Y/yes/'y '/' y'/text/EOF/Ctrl-C or runs out of answers; ENOSPC/EACCES is injected into confirmed writes; 15% of the histories run with CAP_DAC_OVERRIDE dropped (an ordinary user, write-protected targets); targets may be empty, symlinks, behind a symlinked directory, or arrive with the directory times restored. Oracle per pre-existing file: no mutating event before a 'y' attributed to it (bytes and inode unchanged otherwise), replaced by a valid output when confirmed or warnings disabled, no prompt when disabled, no unexpected new file. Sampling, not proof.",
      "4.3"),
    note="Trusted: the audit hook sees every Python-level file access (C-level access bypassing it would be invisible; the writers under test do none), tmpfs, in-process CLI invocation through the real parser + merge_config + main_*.run with SETTINGS restored between operations.",
    technique="deterministic simulation: histories of writer/CLI operations against a monitored real disk and a scripted faulty user peer, with disk-fault injection through the audit hook"),
